@@ -17,18 +17,18 @@ LEVEL_TEXT = ('all multisets of up to 3 (thorough: 4) entries drawn from 15 date
               'future, missing, garbage, empty, impossible calendar date, fractional seconds, trailing space, un-padded, duplicated lines) are '
               'purged by the real trash-empty for 7 DAYS values in 3 kinds of trash dir; purged set must equal the reference set, removals whole, survivors byte-identical')
 LEVEL_NOTE = 'trusted: R6 (reference age rule), the fake clock / TRASH_DATE seams; time zones and DST are out of scope (naive local times, as in the code)'
-RULE = ('DAYS in {none,0,1,2,7,365,4000000} x multisets of size 1..3 (thorough 1..4) over 15 date classes x {home, .Trash/uid, .Trash-uid, entries spread over all three} x clock '
+RULE = ('DAYS in {none,0,1,2,7,365,4000000} x multisets of size 1..3 (thorough 1..4) over 15 date classes x {home, .Trash/uid, .Trash-uid, entries spread over all three, the same behind a volume whose .Trash is not sticky} x clock '
         'seam {fake datetime.now, TRASH_DATE}; every fifth point with -i answered y; entry names: ordinary, hidden (.e1), trailing blank, two leading dots, by position; each world also holds an orphan payload and a non-.trashinfo file; non-trivial = at least one entry was '
         'examined against the threshold; distinct = (DAYS, date class, observed state) triples')
 NOW = '2024-05-06T07:08:09'
 DAYS = [None, 0, 1, 2, 7, 365, 4000000]
 CLASSES = ['lim-1s', 'lim', 'lim+1s', 'now', 'farpast', 'future', 'missing', 'garbage', 'emptyval', 'feb30', 'fraction',
            'trailsp', 'unpadded', 'two:old,bad', 'two:bad,old']
-TDS = ['home', 'top', 'alt', 'mixed']
+TDS = ['home', 'top', 'alt', 'mixed', 'mixed-after-insecure']
 
 
 def dimensions(tier):
-    return {'days': len(DAYS), 'date_classes': len(CLASSES), 'multiset_size': 3 if tier != 'thorough' else 4, 'trash_dir': 4, 'seam': 2}
+    return {'days': len(DAYS), 'date_classes': len(CLASSES), 'multiset_size': 3 if tier != 'thorough' else 4, 'trash_dir': len(TDS), 'seam': 2}
 
 
 def cases(tier):
@@ -68,8 +68,12 @@ def run_case(c):
     uid = 0
     tdmap = {'home': scen.HOME_TRASH, 'top': '/mnt/v1/.Trash/0', 'alt': '/mnt/v1/.Trash-0'}
     td = tdmap.get(c['td'], scen.HOME_TRASH)
-    tds = [td] if c['td'] != 'mixed' else [scen.HOME_TRASH, '/mnt/v1/.Trash-0', '/mnt/v1/.Trash/0']
-    W = scen.base_world(mounts=['/', '/mnt/v1'], cwd='/')
+    tds = [td] if not c['td'].startswith('mixed') else [scen.HOME_TRASH, '/mnt/v1/.Trash-0', '/mnt/v1/.Trash/0']
+    W = scen.base_world(mounts=['/', '/mnt/v0', '/mnt/v1'] if c['td'] == 'mixed-after-insecure' else ['/', '/mnt/v1'], cwd='/')
+    if c['td'] == 'mixed-after-insecure':
+        # a volume listed before the others has a .Trash that is NOT sticky, with a $uid directory in it: skipped (C08), and nothing after it may be forgotten
+        W.dir('/mnt/v0/.Trash', mode=0o777)
+        scen.add_trashed(W, '/mnt/v0/.Trash/0', 'ins', 'w/ins', '1999-01-01T00:00:00', tag='insecure')
     W.dir('/mnt/v1/.Trash', mode=0o1777)
     for t in tds:
         scen.add_trash_dir(W, t)
